@@ -19,6 +19,11 @@ class AbstractDenseTimeOnlineInterpreter(AbstractOnlineInterpreter, DenseTimeInt
         self.updateFinalVisitor = DenseTimeOnlineUpdateFinalVisitor()
         return
 
+    def set_ast(self, ast):
+        # operators that are built anew have consumed nothing: the constants are emitted again
+        self.updateVisitor = DenseTimeOnlineUpdateVisitor()
+        super(AbstractDenseTimeOnlineInterpreter, self).set_ast(ast)
+
     #input format
     #a = [[0, 1.3], [0.7, 3], [1.3, 0.1], [2.1, -2.2]]
     #b = [[0, 2.5], [0.7, 4], [1.3, -1.2], [2.1, 1.7]]
